@@ -8,7 +8,8 @@ META = dict(
     level_text="Logical half proved: for every pool.Get() site of the CURRENT source (table regenerated on every run) the acquired object is "
                "independent of the recycled object's stale contents, and every write to a package-level variable is inside a sync.Once literal or "
                "under a mutex; a source edit that leaves a field of a recycled object unassigned, or adds an unguarded global write, breaks a proof "
-               "obligation. Schedule half supported, not proved: every job returns byte-identical results alone, after unrelated calls and under "
+               "obligation; by induction over acquisition histories, for any two initial pool contents and any two hand-out policies of the pool a history "
+               "over the sites of the regenerated table yields the same observations. Schedule half supported, not proved: every job returns byte-identical results alone, after unrelated calls and under "
                "8 goroutines; the thorough tier repeats this under the Go race detector.",
     level_note="partial by nature: freedom from data races under all schedules is a statement about the Go memory model and runtime that no executable "
                "Gallina model can exhibit. Trusted: the translator harness/cmd/trconc (syntactic: assignments directly after Get() in the same block; "
